@@ -138,6 +138,60 @@ let handle (f : String.t array) : String.t =
                            field_of_bool (real_names_ok names);
                            show_found (find_latest vcmp_real db rq.rq_name f0);
                            show_found (latest_tie vcmp_real db rq.rq_name f0); xm; xs])
+  | "casex" ->
+    (* the extended model (coq/Model/ResolveExt.v): user tags, --vro, LOCAL: versions / -r, tag files.
+       fields 1-16 as for case, except that field 2 is the LIST of user tags (the user name among them) and the
+       stacks of field 10 are id@decl@chain@userchain; then 17 the words of --vro (- = none), 18 -r given,
+       19 the directories that exist, 20 the files name=line;line|name=...
+       answer: ok, pref0, vro (or err:kind), walk found (or err:kind), walk reason, resolve found (or err:kind),
+       resolve reason, designates_in_x (found or err:kind), wf_dbx, and the walk of Model/Resolve.v over the
+       flattened stacks (found, reason) *)
+    let cfg0 = site_config (words f.(1)) (words f.(2)) in
+    let cfg = if f.(3) = "-" then cfg0 else { cfg0 with cfg_vro = dec_vrocfg f.(3) } in
+    let o = { o_keep = bool_of_field f.(4); o_exact = bool_of_field f.(5); o_inexact = bool_of_field f.(6);
+              o_tags = words f.(8); o_posttags = words f.(9); o_productdir = bool_of_field f.(18);
+              o_vnamed = bool_of_field f.(7) } in
+    let dec_stackx (s : String.t) : stackx =
+      (match split_on_string '@' s with
+       | [id; d; c; u] ->
+         { sx_base = { st_id = dec_str id; st_decl = List.map dec_decl (split_sep ',' d);
+                       st_chain = List.map dec_chain (split_sep ',' c) };
+           sx_user = List.map dec_chain (split_sep ',' u) }
+       | _ -> failwith "bad stackx") in
+    let dbx = List.map dec_stackx (split_sep '|' f.(10)) in
+    let flavors = words f.(11) in
+    let depth = nat_of_int (int_of_string f.(12)) in
+    let rq = { rq_name = dec_str f.(13); rq_version = dec_opt f.(14); rq_expr = dec_opt f.(15) } in
+    let prev = dec_prev f.(16) in
+    let uservro = if f.(17) = "-" then None else Some (words f.(17)) in
+    let dirs = words f.(19) in
+    let files = List.map (fun kv ->
+        match String.index_opt kv '=' with
+        | Some i -> (dec_str (String.sub kv 0 i),
+                     dec_list ';' dec_str (String.sub kv (i + 1) (String.length kv - i - 1)))
+        | None -> failwith "bad file") (split_sep '|' f.(20)) in
+    let w = { w_db = dbx; w_dirs = dirs; w_files = files } in
+    let pref0 = show_entries (initial_preferred_x cfg files) in
+    let f0 = (match flavors with x :: _ -> x | [] -> []) in
+    (match select_vro_w vcmp_simple vmatch_simple cfg w o uservro f0 with
+     | Err k -> String.concat "\t" ["ok"; pref0; "err:" ^ err_name k]
+     | Ok vro ->
+       let (wf_, wr) = (match find_from_vro_x vcmp_simple vmatch_simple cfg w prev f0 depth vro rq with
+           | Err k -> ("err:" ^ err_name k, "-")
+           | Ok None -> ("-", "-")
+           | Ok (Some (p, r)) -> (show_found (Some p), show_reason (Some r))) in
+       let (rf, rr) = (match resolve_request_x vcmp_simple vmatch_simple cfg w o.o_keep prev flavors depth vro rq with
+           | Err k -> ("err:" ^ err_name k, "-")
+           | Ok None -> ("-", "-")
+           | Ok (Some (p, r)) -> (show_found (Some p), show_reason r)) in
+       let spec_in = (match designates_in_x vcmp_simple vmatch_simple cfg w rq.rq_name (classify rq) f0 vro with
+           | Err k -> "err:" ^ err_name k
+           | Ok o -> show_found o) in
+       let (bf, br) = (match find_from_vro vcmp_simple vmatch_simple cfg (flatten cfg dbx) prev f0 depth vro rq with
+           | Some (p, r) -> (show_found (Some p), show_reason (Some r))
+           | None -> ("-", "-")) in
+       String.concat "\t" ["ok"; pref0; show_entries vro; wf_; wr; rf; rr; spec_in;
+                           field_of_bool (wf_dbx dbx); bf; br])
   | _ -> failwith "unknown op"
 
 let () = main_loop handle
